@@ -67,9 +67,12 @@ def _fill(np, rng, dt, n, text):
             for _ in range(cnt):
                 if text:
                     # ASCII without newlines: empty, leading / embedded / trailing spaces, delimiter characters
-                    alphabet = "ab Z9 ,:;|\t.-+e"
+                    # and the characters other text formats give a meaning to (comment marks, quotes, escapes)
+                    alphabet = "ab Z9 ,:;|\t.-+e#\"'%!/\\*=&"
                     ln = rng.choice([0, w, w, rng.randint(0, w)])
                     s = "".join(rng.choice(alphabet) for _ in range(ln))
+                    if s and rng.random() < 0.15:
+                        s = rng.choice("#%!/\"';") + s[1:]
                     if ln == w and rng.random() < 0.3:
                         s = " " * w
                     vals.append(s.encode("ascii"))
@@ -333,6 +336,8 @@ _HEADERS = [
     {"_size": 77, "_NROWS": 5, "_delim": ":", "_SHAPE": (3,), "_has_fields": False, "keep": 1},
     {"k" + str(i): "v" * i for i in range(40)},
     {"long": "x" * 500, "key with spaces": 1, "key:colon": 2, "'quote'": 3},
+    # values whose own keys are not strings: they come back as they were written
+    {"ccd": {1: "north", 2: "south", 10: "focus"}, "lookup": [{(0, 1): 2.5, None: "missing"}, {b"k": True}], "m": {1.5: {2: {3: "deep"}}, True: 0}},
 ]
 
 
@@ -394,6 +399,13 @@ def history_statement(ops, delim):
     fn = _scratch("c03")
     if os.path.exists(fn):
         os.remove(fn)
+    # the name the library is given: the literal path, or a shortcut that the library expands ($VAR/..., ~/...)
+    style = (len(ops) + sum(int(c.size) for _, c, _ in ops if c is not None)) % 3
+    saved_env = {k: os.environ.get(k) for k in ("HOME", "ESVC_C03_DIR")}
+    os.environ["ESVC_C03_DIR"] = os.path.dirname(fn)
+    if style == 2:
+        os.environ["HOME"] = os.path.dirname(fn)
+    name = [fn, "$ESVC_C03_DIR/" + os.path.basename(fn), "~/" + os.path.basename(fn)][style]
     model = None      # list of chunks
     mhdr = None
     sf = None
@@ -422,12 +434,12 @@ def history_statement(ops, delim):
             if kind == "create":
                 if sf is not None:
                     sf.close()
-                sf = sfile.SFile(fn, mode="w", delim=delim)
+                sf = sfile.SFile(name, mode="w", delim=delim)
                 sf.write(chunk, header=header)
                 model, mhdr = [chunk.copy()], header
             elif kind == "again":
                 if sf is None:
-                    sf = sfile.SFile(fn, mode="r+", delim=delim)
+                    sf = sfile.SFile(name, mode="r+", delim=delim)
                 sf.write(chunk)
                 model.append(chunk.copy())
             elif kind == "close":
@@ -439,7 +451,7 @@ def history_statement(ops, delim):
                     sf.close()
                     sf = None
                 existed = os.path.exists(fn)
-                sfile.write(chunk, fn, append=True, delim=delim, header=header)
+                sfile.write(chunk, name, append=True, delim=delim, header=header)
                 if existed and model is not None:
                     model.append(chunk.copy())
                 else:
@@ -456,7 +468,7 @@ def history_statement(ops, delim):
                 if sf is not None:
                     sf.close()
                     sf = None
-                sfile.write(chunk, fn, delim=delim, header=header)
+                sfile.write(chunk, name, delim=delim, header=header)
                 model, mhdr = [chunk.copy()], header
             elif kind in ("bad-append", "bad-again"):
                 if kind == "bad-append" and sf is not None:
@@ -467,7 +479,7 @@ def history_statement(ops, delim):
                 before = open(fn, "rb").read()
                 try:
                     if kind == "bad-append":
-                        sfile.write(chunk, fn, append=True, delim=delim)
+                        sfile.write(chunk, name, append=True, delim=delim)
                     else:
                         sf.write(chunk)
                 except (ValueError, TypeError, RuntimeError):
@@ -487,7 +499,7 @@ def history_statement(ops, delim):
                 r = readback(step)
                 if r is not True:
                     return r
-                sf = sfile.SFile(fn, mode="r+", delim=delim)
+                sf = sfile.SFile(name, mode="r+", delim=delim)
             elif model is not None:
                 r = readback(step)
                 if r is not True:
@@ -501,6 +513,11 @@ def history_statement(ops, delim):
                 pass
         if os.path.exists(fn):
             os.remove(fn)
+        for k, v in saved_env.items():
+            if v is None:
+                os.environ.pop(k, None)
+            else:
+                os.environ[k] = v
 
 
 def same_handle_statement(chunks, header, delim, mode, bad=None):
